@@ -16,6 +16,8 @@ echo "--- existing suite with the change ($MOD $PKGS)"
 ( cd "$WT/$MOD" && go test -mod=mod -vet=off -count=1 $PKGS >/dev/null 2>&1 ); S=$?
 echo "suite exit=$S"
 cp "$DEMO" "$WT/$DEST/zz_demo_test.go"
+# EXTRA_FILES: space-separated helper files the demonstration needs (copied next to it, removed afterwards)
+for x in ${EXTRA_FILES:-}; do cp "$x" "$WT/$DEST/zz_extra_$(basename $x)"; done
 echo "--- demo WITH the change"
 ( cd "$WT/$DEST" && go test -mod=mod -vet=off -count=1 -run "$RUN" . 2>&1 | tail -8 ); 
 ( cd "$WT/$DEST" && go test -mod=mod -vet=off -count=1 -run "$RUN" . >/dev/null 2>&1 ); W=$?
@@ -23,7 +25,7 @@ git apply -R "$PATCH"
 echo "--- demo WITHOUT the change"
 ( cd "$WT/$DEST" && go test -mod=mod -vet=off -count=1 -run "$RUN" . 2>&1 | tail -4 );
 ( cd "$WT/$DEST" && go test -mod=mod -vet=off -count=1 -run "$RUN" . >/dev/null 2>&1 ); O=$?
-rm -f "$WT/$DEST/zz_demo_test.go"; git checkout -q -- . ; git clean -fdq
+rm -f "$WT/$DEST/zz_demo_test.go" "$WT/$DEST"/zz_extra_*; git checkout -q -- . ; git clean -fdq
 echo "CONFIRM: suite_with_change_exit=$S demo_with_change_exit=$W demo_without_change_exit=$O"
 [ $S -eq 0 ] && [ $W -ne 0 ] && [ $O -eq 0 ] && { echo "CONFIRM: OK"; exit 0; }
 echo "CONFIRM: NOT CONFIRMED"; exit 1
